@@ -17,25 +17,26 @@ import (
 )
 
 const (
-	c01AuthOK  = "AuthOK"
-	c01AuthBad = "AuthBad"
-	c01NonAuth = "NonAuth"
-	c01Raw401  = "Raw401"
-	c01Dgram   = "Dgram"
+	c01AuthOK   = "AuthOK"
+	c01AuthBad  = "AuthBad"
+	c01AuthOnce = "AuthOnce" // a one-time credential: accepted for the first connection that presents it only
+	c01NonAuth  = "NonAuth"
+	c01Raw401   = "Raw401"
+	c01Dgram    = "Dgram"
 )
 
 type c01Outcome struct {
-	Kind     string
-	Start    int // len(rig.Events) when the event started
-	End      int
-	Status   int
-	Err      string
-	Tag      string
-	Stream   *vquic.Stream
-	RespOK   bool
-	RespMsg  string
-	GotResp  bool
-	HysHdr   []string // Hysteria-* headers of the HTTP response
+	Kind    string
+	Start   int // len(rig.Events) when the event started
+	End     int
+	Status  int
+	Err     string
+	Tag     string
+	Stream  *vquic.Stream
+	RespOK  bool
+	RespMsg string
+	GotResp bool
+	HysHdr  []string // Hysteria-* headers of the HTTP response
 }
 
 type c01Conn struct {
@@ -49,6 +50,7 @@ func c01Run(e *vsched.Exec, conns [][]string, disableUDP bool) {
 	if r.srv == nil {
 		return
 	}
+	r.OnceCred = "once"
 	var wg vsync.WaitGroup
 	var cs []*c01Conn
 	for ci, evs := range conns {
@@ -63,10 +65,13 @@ func c01Run(e *vsched.Exec, conns [][]string, disableUDP bool) {
 				defer wg.Done()
 				o.Start = len(r.Events)
 				switch kind {
-				case c01AuthOK, c01AuthBad:
+				case c01AuthOK, c01AuthBad, c01AuthOnce:
 					cred := "good"
 					if kind == c01AuthBad {
 						cred = "bad"
+					}
+					if kind == c01AuthOnce {
+						cred = "once"
 					}
 					resp, err := cn.cl.auth(cred, 0)
 					if err != nil {
@@ -129,8 +134,11 @@ func c01Run(e *vsched.Exec, conns [][]string, disableUDP bool) {
 				if o.Err == "" && o.Status != protocol.StatusAuthOK {
 					e.Fail("valid credentials on %s got status %d", cn.name, o.Status)
 				}
-			case c01AuthBad:
+			case c01AuthBad, c01AuthOnce:
 				if o.Err == "" {
+					if o.Kind == c01AuthOnce && firstOK >= 0 && o.Status != protocol.StatusAuthOK {
+						e.Fail("the one-time credential was accepted by the authenticator for %s but the request got status %d", cn.name, o.Status)
+					}
 					if firstOK >= 0 && firstOK < o.Start && o.Status != protocol.StatusAuthOK {
 						e.Fail("(b) rejected attempt after acceptance revoked/re-evaluated access on %s: status %d", cn.name, o.Status)
 					}
@@ -234,6 +242,13 @@ func c01Scenarios(thorough bool) []*explore.Scenario {
 	}
 	add("1conn-noudp:AuthOK+Dgram+Raw401", [][]string{{c01AuthOK, c01Dgram, c01Raw401}}, true, explore.Bounds{P: 2}, explore.Bounds{P: 3})
 	// two connections: A authenticates, B never does
+	// two connections (same client IP) presenting the SAME one-time credential: the authenticator
+	// accepts it for whichever connection it sees first and rejects it for the other; acceptance on
+	// one connection must not authorise the other (added after the seeded change C01-4: a
+	// server-wide cache of recently accepted (client IP, credential) pairs)
+	for _, b := range [][]string{{c01AuthOnce, c01Raw401}, {c01AuthOnce, c01Dgram}} {
+		add("2conn:AuthOnce+Raw401|"+strings.Join(b, "+"), [][]string{{c01AuthOnce, c01Raw401}, b}, false, explore.Bounds{P: 1}, explore.Bounds{P: 2})
+	}
 	noAuth := []string{c01AuthBad, c01NonAuth, c01Raw401, c01Dgram}
 	for _, a := range [][]string{{c01AuthOK}, {c01AuthOK, c01Raw401}, {c01AuthOK, c01Dgram}} {
 		for _, b := range c01Multisets(noAuth, 2) {
